@@ -1405,6 +1405,17 @@ func runC15(c *Ctx) {
 			for _, a := range it.p.Atoms {
 				if k := seenKey(a); filterKind(a) == "Seen" && len(it.appends) == 1 && k != nil && k.String() == it.appends[0].String() {
 					okKey = true
+					// membership asked of the output slice itself (slices.Contains(out, k)): the append is the insert
+					if e := a.Cond; e.Op == an.OpCall && len(e.Args) == 2 {
+						set := e.Args[0].String()
+						it.p.Instrs(func(in ssa.Instruction) {
+							if call, ok := in.(*ssa.Call); ok {
+								if bi, isB := call.Call.Value.(*ssa.Builtin); isB && bi.Name() == "append" && len(call.Call.Args) == 2 && it.p.Of(call.Call.Args[0]).String() == set {
+									okIns = true
+								}
+							}
+						})
+					}
 				}
 			}
 			if !(okIns && okKey) {
